@@ -572,7 +572,7 @@ def envinit_jobs(tier):
                      "config_search.0": 6, "config_search.1": 6, "memchr.0": 6, "memcpy.0": 24, "strtoul.0": 4, "strtoul.1": 4}
                 J.append(dict(name="c15_envinit_%s_pre%d_opt%d" % (nm, pre, resopt), harness="envinit.c",
                               defines=['-DVAL="%s"' % val, "-DPRE=%d" % pre, "-DRESOPT=%d" % resopt], real=RL_LIB, support=SUP + ["pton_stub.c"],
-                              unwind=16, unwindset=us(u), leak=True, native=False, mem_gb=6,
+                              unwind=16, unwindset=us(u), leak=True, native=False, mem_gb=6, kf_group="c15_envinit",
                               witnesses=["end", "no LOCALDOMAIN"],
                               bound="ONE ares_init_by_environment: LOCALDOMAIN absent or '%s', RES_OPTIONS %s, from %s sysconfig; getenv = stub"
                                     % (val, "'ndots:2'" if resopt else "absent", ("a fresh", "a populated (search a.b)")[pre])))
